@@ -59,6 +59,22 @@ func c01Cases(c *Ctx) []c01Case {
 		}
 		cs = append(cs, c01Case{it, 0, "list-boundary"})
 	}
+	// B2: skipped (nil / EmptyItem) arguments around the child-count boundaries: the list header is sized by the
+	// children actually KEPT, not by the number of arguments (after seeded change C01d-2)
+	for _, n := range []int{256, 257, 258, 65536, 65537} {
+		for _, skip := range []int{1, 2} {
+			it := &LItem{Kind: "L"}
+			for i := 0; i < n; i++ {
+				if i < skip || (skip == 2 && i == n-1) {
+					it.Kids = append(it.Kids, &LItem{Kind: "E"})
+				} else {
+					it.Kids = append(it.Kids, GenLeaf(r, "U1", 1))
+				}
+			}
+			cs = append(cs, c01Case{it, 0, "list-boundary"})
+			cs = append(cs, c01Case{&LItem{Kind: "L", Kids: []*LItem{GenLeaf(r, "A", 3), it}}, 0, "list-boundary"})
+		}
+	}
 	// C: nesting depth 0..64
 	for d := 0; d <= 64; d++ {
 		cs = append(cs, c01Case{Nest(GenLeaf(r, kinds[1+d%(len(kinds)-1)], 1+d%3), d), d % 6, "nesting"})
